@@ -120,6 +120,7 @@ impl WorkStealingQueue {
 
     /// Push a task to the local queue
     pub fn push_local(&self, task: Box<dyn Task>) -> Result<()> {
+        verif_lock_scope!(_vl, &self.local_queue as *const _);
         let mut queue = self.local_queue.lock().unwrap_or_else(|e| e.into_inner());
 
         if queue.len() >= self.capacity {
@@ -140,17 +141,21 @@ impl WorkStealingQueue {
     /// Pop a task from the local queue (highest priority first)
     pub fn pop_local(&self) -> Option<Box<dyn Task>> {
         // Pop from front since tasks are sorted by priority (highest first)
+        verif_lock_scope!(_vl, &self.local_queue as *const _);
         self.local_queue.lock().unwrap_or_else(|e| e.into_inner()).pop_front()
     }
 
     /// Steal a task from this queue (FIFO for load balancing)
     pub fn steal(&self) -> Option<Box<dyn Task>> {
         // First try the steal queue
+        verif_lock_scope!(_vs, &self.steal_queue as *const _);
         if let Some(task) = self.steal_queue.lock().unwrap_or_else(|e| e.into_inner()).pop_front() {
             return Some(task);
         }
+        verif_lock_release!(_vs);
 
         // Then try to steal from the local queue
+        verif_lock_scope!(_vl, &self.local_queue as *const _);
         let mut local_queue = self.local_queue.lock().unwrap_or_else(|e| e.into_inner());
         if local_queue.len() > 1 {
             // Only steal if there's more than one task
@@ -173,7 +178,9 @@ impl WorkStealingQueue {
 
     /// Move half of the local tasks to the steal queue
     pub fn balance(&self) {
+        verif_lock_scope!(_vl, &self.local_queue as *const _);
         let mut local_queue = self.local_queue.lock().unwrap_or_else(|e| e.into_inner());
+        verif_lock_scope!(_vs, &self.steal_queue as *const _);
         let mut steal_queue = self.steal_queue.lock().unwrap_or_else(|e| e.into_inner());
 
         let local_len = local_queue.len();
@@ -197,6 +204,8 @@ impl WorkStealingQueue {
 
     /// Get the number of tasks in both queues
     pub fn len(&self) -> usize {
+        verif_lock_scope!(_vl, &self.local_queue as *const _);
+        verif_lock_scope!(_vs, &self.steal_queue as *const _);
         self.local_queue.lock().unwrap_or_else(|e| e.into_inner()).len() + self.steal_queue.lock().unwrap_or_else(|e| e.into_inner()).len()
     }
 
@@ -322,6 +331,7 @@ impl WorkStealingExecutor {
         verif_point!("ws.submit.probe", worker_id);
         // Check if local queue has space and submit directly to global if not
         let can_use_local = {
+            verif_lock_scope!(_vl, &self.queues[worker_id].local_queue as *const _);
             let queue = self.queues[worker_id].local_queue.lock().unwrap_or_else(|e| e.into_inner());
             queue.len() < self.queues[worker_id].capacity
         };
